@@ -12,8 +12,12 @@ harness/cmd/steps   builds real CallableSchemas with recording handlers / a coun
 Step s2 (StepsMC: MapSteps) has a MAP-BASED input scope and signal data scope; besides the classes every step
 gets it is called with raw inputs that omit a defaulted property ("vd") or carry values in a representation the
 schema accepts by lenient conversion ("vl").  The abstract unserialized value is bound in the harness by an
-independent copy of the scope (reflect.DeepEqual with what its Unserialize returns).  The orchestrator hands
-the concrete forms of each raw-input class out round-robin, so every form in the harness's tables is exercised.
+independent copy of the scope (reflect.DeepEqual with what its Unserialize returns).  Its OUTPUT scopes are
+map-based too (int, list of string, pattern, struct-mapped sub-object): behaviour "okr" returns conforming data
+whose in-memory form differs from its serialized form, and the data CallStep returns must equal what an
+independent copy of the output scope's Serialize gives for the handler's value.  The orchestrator hands
+the concrete forms of each raw-input class and handler behaviour out round-robin, so every form in the harness's
+tables is exercised.
 """
 import os, json, re
 from vlib import common
@@ -106,7 +110,7 @@ def check_form_coverage(ctx, counts):
         if len(names) != want:
             missing.append("%s/%s/%s: %d of %d" % (scope, kind, cls, len(names), want))
     if missing:
-        raise common.Infra("raw-input forms not all exercised by the replayed schedules: " + "; ".join(missing))
+        raise common.Infra("raw-input / handler-output forms not all exercised by the replayed schedules: " + "; ".join(missing))
     return sum(len(v) for v in seen.values())
 
 
@@ -258,7 +262,8 @@ def run(ctx):
                 "signal x known/unknown step and signal IDs x run x accepted/rejected raw input x handler behaviour "
                 "ok/second output/undeclared ID/non-conforming data x step with/without initializer x input scope "
                 "struct-mapped/map-based, the map-based one also with raw inputs that omit a defaulted property or use "
-                "a representation accepted by lenient conversion) plus the order "
+                "a representation accepted by lenient conversion, and with handler output values whose in-memory form "
+                "differs from the serialized form of its map-based output scope) plus the order "
                 "of releases and arrivals at the gates (call begin, initializer, handler, return); distinct = "
                 "distinct (sequential|concurrent, same|different (step,run), multiset of call classes); non-trivial = "
                 "all (no default configuration exists); random sessions add distinct (kind, situation, behaviour"
@@ -285,7 +290,7 @@ def run(ctx):
         nvec += len(cases)
     ctx.traces += nvec
     ctx.exhaustive = True
-    nforms = check_form_coverage(ctx, counts)
+    nforms = check_form_coverage(ctx, counts)   # raw-input forms and handler-output forms
 
     # code -> spec: random concurrent sessions, ledger validated by StepsTrace
     nper = 25
@@ -304,8 +309,9 @@ def run(ctx):
     ctx.traces += accepted
     if trace:
         ctx.sample(dict(trace_head=trace[:6]))
-    ctx.extra.update(raw_input_forms_exercised_by_schedules=nforms,
+    ctx.extra.update(input_and_output_forms_exercised_by_schedules=nforms,
                      raw_input_forms_of_the_map_based_step=len([f for f in counts["forms"] if f.startswith("map/")]),
+                     handler_output_forms_of_the_map_based_step=len([f for f in counts["forms"] if f.startswith("mapout/")]),
                      schedules_replayed=nvec, schedules_sequential=counts["seq"], schedules_concurrent=counts["conc"],
                      schedules_followed_exactly=counts["followed"],
                      schedules_left_at_a_runtime_mutex_race=counts["raced"], arrival_timeouts=counts["timeouts"],
@@ -329,6 +335,9 @@ def run(ctx):
         "the unserialized value of a raw input of a map-based scope is what an independent copy of that scope's "
         "Unserialize returns (compared with reflect.DeepEqual); the hand-written normal forms of the harness's tables "
         "are checked against it at start (binding check)",
+        "the serialized output of a call on the step with map-based output scopes is what an independent copy of the "
+        "declared output scope's Serialize returns for the value the handler returned (reflect.DeepEqual); the "
+        "hand-written serialized forms of the harness's tables are checked against it at start",
         "a data race reported by the race detector inside schema/step.go, schema.go or signal.go is taken as a "
         "violation of once-per-run initialisation over all schedules; races elsewhere are left to C13",
     ]
